@@ -1,14 +1,179 @@
 /-
   C05 — HTTP/2: every emitted frame is legal for the connection and stream state.
-  (theorems are added below; helper lemmas in Proofs/H2.lean)
+  Property theorems over Model/H2.lean; helper lemmas in Proofs/H2.lean.
 -/
-import LtVerif.Model.H2
+import LtVerif.Proofs.H2
 namespace LtVerif.C05
 open LtVerif
+
+/-! ## connection errors are terminal -/
 
 /-- nothing is parsed, and hence no stream is created or answered, after an error GOAWAY -/
 theorem c05_conn_error_terminal_recv (c : H2Conn) (f : FrameIn) (h : c.goaway > 0) :
     recvFrame c f = (c, []) := by
   simp [recvFrame, h]
+
+/-- after an error GOAWAY the streams are retired without emitting any frame -/
+theorem c05_conn_error_terminal_send (c : H2Conn) (budget : Nat) (h : c.goaway > 0) :
+    (processPass c budget).2 = [] ∧ (processPass c budget).1.streams = [] ∨
+    (processPass c budget) = (c, []) := by
+  unfold processPass
+  by_cases hd : c.dead = true
+  · right; simp [hd]
+  · left; simp [hd, h]
+
+/-! ## the receive side only ever answers with control frames -/
+
+/-- whatever frame arrives in whatever state, the frames sent in direct response are control
+    frames (SETTINGS ack, PING ack, WINDOW_UPDATE, RST_STREAM, GOAWAY): response HEADERS and
+    DATA are only produced by the stream scheduler below -/
+theorem c05_recv_emits_only_control (c : H2Conn) (f : FrameIn) :
+    ∀ o ∈ (recvFrame c f).2, o.isCtl = true :=
+  recvFrame_ctl c f
+
+/-! ## per-stream legality of what the scheduler emits -/
+
+/-- RFC 9113 §5.1 monitor for the frames a server sends on one stream -/
+inductive Phase | idle | open | ended
+deriving Repr, DecidableEq
+
+def monStep (sid : Nat) : Option Phase → Out → Option Phase
+  | none, _ => none
+  | some p, .headers i _ es =>
+    if i ≠ sid then none else
+    match p with
+    | .idle => some (if es then .ended else .open)
+    | _ => none                        -- a second HEADERS block / HEADERS after END_STREAM
+  | some p, .data i _ es =>
+    if i ≠ sid then none else
+    match p with
+    | .open => some (if es then .ended else .open)
+    | _ => none                        -- DATA before HEADERS or after END_STREAM
+  | some _, .rst i _ => if i ≠ sid then none else some .ended   -- RST_STREAM may always follow
+  | some _, _ => none                  -- the scheduler emits nothing else
+
+def monRun (sid : Nat) (p : Phase) (o : List Out) : Option Phase := o.foldl (monStep sid) (some p)
+
+def phaseOf (s : Strm) : Phase := if s.headersSent then .open else .idle
+
+/-- **Stream legality**: a stream's turn emits only frames of that stream, HEADERS first if
+    they were not sent yet, DATA only after HEADERS, END_STREAM at most once and nothing but
+    RST_STREAM after it; a stream that got END_STREAM (or was reset) is retired, a stream
+    that stays has its HEADERS sent and is still open. -/
+theorem c05_stream_turn_legal (cswin : Int) (budget : Nat) (s : Strm) (hne : s.err = false) :
+    ∃ p, monRun s.id (phaseOf s) (strmTurn cswin budget s).2.1 = some p ∧
+      (match (strmTurn cswin budget s).1 with
+       | none => True
+       | some s' => p = .open ∧ s'.headersSent = true ∧ s'.id = s.id ∧ s'.err = false) := by
+  unfold strmTurn
+  simp only [hne, Bool.false_eq_true, if_false]
+  generalize hn : turnAmount cswin budget s = n
+  obtain ⟨id, st, err, swin, reqLen, bodyIn, fudge, status, pending, headersSent, incremental⟩ := s
+  simp only at hne ⊢
+  subst hne
+  by_cases hn0 : n = 0
+  · subst hn0
+    by_cases hp0 : pending = 0
+    · subst hp0
+      cases headersSent <;> cases st <;>
+        simp [sendHdrs, endStream, monRun, monStep, phaseOf, List.foldl]
+    · cases headersSent <;>
+        simp [hp0, sendHdrs, monRun, monStep, phaseOf, List.foldl]
+  · by_cases hp : pending - n = 0
+    · by_cases hp0 : pending = 0
+      · subst hp0
+        exact absurd (by simpa [turnAmount] using hn.symm) hn0
+      · cases headersSent <;> cases st <;>
+          simp [hp, hp0, hn0, sendHdrs, endStream, monRun, monStep, phaseOf, List.foldl]
+    · have hp0 : pending ≠ 0 := by omega
+      cases headersSent <;>
+        simp [hp, hp0, hn0, sendHdrs, monRun, monStep, phaseOf, List.foldl]
+
+/-- a stream in error state is retired with at most an RST_STREAM — never HEADERS or DATA -/
+theorem c05_error_stream_retired (cswin : Int) (budget : Nat) (s : Strm) (he : s.err = true) :
+    (strmTurn cswin budget s).1 = none ∧ ∀ o ∈ (strmTurn cswin budget s).2.1, o.isCtl = true := by
+  unfold strmTurn
+  simp only [he, if_true]
+  refine ⟨trivial, ?_⟩
+  unfold endStream
+  by_cases hc : s.st = .closed
+  · simp [hc]
+  · simp only [hc, he, if_false, if_true]
+    intro o ho
+    simp only [List.mem_singleton] at ho
+    subst ho; rfl
+
+/-! ## acknowledgements -/
+
+/-- a well-formed SETTINGS frame (stream 0, whole parameters) that raises no connection error
+    is acknowledged with exactly one SETTINGS ACK, sent after any RST_STREAM it caused -/
+theorem c05_settings_acked (c : H2Conn) (ps : List (Nat × Nat))
+    (hok : (applySettings c ps).1.goaway = c.goaway) (hg : c.goaway ≤ 0) :
+    (recvSettings c false 0 ps 0).2 = (applySettings c ps).2 ++ [Out.settingsAck] := by
+  unfold recvSettings
+  simp [hok, hg]
+
+/-- a PING (stream 0, 8 octets, not an ACK) is echoed with ACK; a PING ACK is not answered -/
+theorem c05_ping_echoed (c : H2Conn) : (recvPing c false 0 8).2 = [Out.pingAck] ∧ (recvPing c true 0 8).2 = [] := by
+  simp [recvPing]
+
+/-! ## frame validation: the RFC-mandated error for each malformed frame -/
+
+theorem c05_frame_size_errors (c : H2Conn) (sid len x : Nat) :
+    (len ≠ 8 → ∃ r, recvPing c false sid len = sendGoaway c E.frameSize ∧ r = ()) ∧
+    (len ≠ 4 → recvWindowUpdate c sid len x = sendGoaway c E.frameSize) ∧
+    (len ≠ 4 → recvRstStream c sid len = sendGoaway c E.frameSize) ∧
+    (len ≠ 5 → recvPriority c sid len x = sendGoaway c E.frameSize) ∧
+    (len < 8 → recvGoaway c sid len x = sendGoaway c E.frameSize) := by
+  refine ⟨fun h => ⟨(), by simp [recvPing, h], rfl⟩, fun h => by simp [recvWindowUpdate, h],
+          fun h => by simp [recvRstStream, h], fun h => by simp [recvPriority, h],
+          fun h => by simp [recvGoaway, h]⟩
+
+theorem c05_stream_zero_errors (c : H2Conn) (x : Nat) (ps : List (Nat × Nat)) (sid : Nat) (h0 : sid ≠ 0) :
+    recvSettings c false sid ps 0 = sendGoaway c E.protocol ∧
+    recvPing c false sid 8 = sendGoaway c E.protocol ∧
+    recvGoaway c sid 8 x = sendGoaway c E.protocol ∧
+    recvRstStream c 0 4 = sendGoaway c E.protocol ∧
+    recvPriority c 0 5 x = sendGoaway c E.protocol ∧
+    recvData c 0 x none false = sendGoaway c E.protocol := by
+  refine ⟨by simp [recvSettings, h0], by simp [recvPing, h0], by simp [recvGoaway, h0],
+          by simp [recvRstStream], by simp [recvPriority], by simp [recvData]⟩
+
+/-- stream identifiers: a client stream id must be odd; DATA for an id above every id seen
+    (idle stream) is a connection error; stray CONTINUATION and PUSH_PROMISE are connection errors -/
+theorem c05_stream_id_rules (c : H2Conn) (sid : Nat) (kind : HdrKind) (es : Bool) (len : Nat)
+    (hg : ¬ c.goaway > 0) (hd : c.dead = false) :
+    (sid % 2 = 0 → recvHeaders c sid kind es none false = sendGoaway c E.protocol) ∧
+    (c.cid < sid → recvData c sid len none es = sendGoaway c E.protocol) ∧
+    recvFrame c (.continuation sid) = sendGoaway c E.protocol ∧
+    recvFrame c (.pushPromise sid) = sendGoaway c E.protocol ∧
+    recvFrame c .oversize = sendGoaway c E.frameSize := by
+  refine ⟨fun h => by simp [recvHeaders, h], fun h => by simp [recvData, h],
+          by simp [recvFrame, hg, hd], by simp [recvFrame, hg, hd], by simp [recvFrame, hg, hd]⟩
+
+/-- **Concurrency**: a new stream is admitted only while fewer than the advertised number of
+    streams (SETTINGS_MAX_CONCURRENT_STREAMS, read back from the code) are active; otherwise it
+    is refused with RST_STREAM(REFUSED_STREAM) and no stream is created -/
+theorem c05_concurrency_refused (c : H2Conn) (sid : Nat) (kind : HdrKind) (es : Bool)
+    (hodd : sid % 2 = 1) (hnew : sid > c.cid) (hg : c.goaway = 0)
+    (hfull : c.streams.length ≥ Extracted.h2MaxStreams) :
+    recvHeaders c sid kind es none false = (refuseStream c sid).andThen discardHeaders ∧
+    Out.rst sid E.refused ∈ (recvHeaders c sid kind es none false).2 := by
+  have h1 : ¬ sid % 2 = 0 := by omega
+  have h2 : ¬ sid ≤ c.cid := by omega
+  have heq : recvHeaders c sid kind es none false = (refuseStream c sid).andThen discardHeaders := by
+    simp [recvHeaders, h1, h2, hg, hfull]
+  refine ⟨heq, ?_⟩
+  rw [heq]
+  simp [Res.andThen, refuseStream]
+
+theorem c05_advertised_concurrency : Extracted.h2MaxStreams = Extracted.h2AdvMaxConcurrent := by decide
+
+/-! non-vacuity -/
+example : (h2Step {} [.headers 1 (.request 200 10 0 false) true none false false]).2 =
+    [.headers 1 200 false, .data 1 10 false, .data 1 0 true] := by decide
+example : (h2Step {} [.headers 1 (.request 200 10 0 false) true none false false,
+                      .data 1 3 none true]).2 = [.rst 1 E.streamClosed, .windowUpdate 0 16384] := by decide
+example : (recvFrame {} (.ping false 0 8)).2 = [.pingAck] := by decide
 
 end LtVerif.C05
